@@ -130,6 +130,24 @@ pub fn get_entries(input: &[u8], path: &[PathElem]) -> Vec<(&'static str, Result
     let mut tree = sonic_rs::PointerTree::new();
     tree.add_path(ptr.iter());
     out.push(("get_many", guarded(|| sonic_rs::get_many(input, &tree).map(|_| ()).map_err(|e| err_info(&e)))));
+    // get_by_schema: the schema follows the keys of the path (null leaf: replaced by the document's value, which is
+    // parsed on its own), and the whole document (empty object schema)
+    let schema_of = |path: &[PathElem]| -> Value {
+        let mut v = Value::new();
+        for p in path.iter().rev() {
+            match p {
+                PathElem::Key(k) => {
+                    let mut o = sonic_rs::Object::new();
+                    o.insert(k, v);
+                    v = o.into_value();
+                }
+                PathElem::Idx(_) => v = Value::new(),
+            }
+        }
+        v
+    };
+    out.push(("get_by_schema:path", guarded(|| sonic_rs::get_by_schema(input, schema_of(path)).map(|_| ()).map_err(|e| err_info(&e)))));
+    out.push(("get_by_schema:whole", guarded(|| sonic_rs::get_by_schema(input, sonic_rs::json!({})).map(|_| ()).map_err(|e| err_info(&e)))));
     out
 }
 
